@@ -21,6 +21,7 @@ func genC01() *GenCfg {
 			"some": 3, "arr": 3, "map": 2, "cmap": 1},
 		MaxDepth: 2, MaxElems: 5,
 		AcqW: [3]int{8, 1, 1},
+		Keep: 15, // some handed-back containers are kept and used further through their old handles
 	}
 	if thorough() {
 		g.Slabs = allSlabs
